@@ -118,6 +118,9 @@ func c17MakeFiles(dir string) ([]string, error) {
 		}
 		_ = s.Write([]string{"alpha", "beta"})
 		_ = fw.CreateHardLink("/g/alias", "/c")
+		for i := 0; i < 9; i++ { // past the compact limit: fractal heap and B-tree v2 are the last structures of the file
+			_ = s.WriteAttribute(fmt.Sprintf("n%02d", i), int32(i))
+		}
 		if err := fw.Close(); err != nil {
 			return nil, err
 		}
